@@ -58,8 +58,9 @@ def controller_components (clock, link_events):
 # =====================================================================================================
 # Part G: all graphs
 # =====================================================================================================
-PAIR_QUICK = ("none", "a>b", "b>a", "both", "both2", "both+a>b", "a>b,b>a-diffports")
-PAIR_THOROUGH5 = ("none", "a>b", "both", "both2")
+PAIR_QUICK = ("none", "a>b", "b>a", "both", "both2", "both2x", "both+a>b", "a>b,b>a-diffports")
+PAIR_QUICK4 = ("none", "a>b", "b>a", "both", "both2x", "both+a>b")     # quick tier, 4 switches (thorough: all of PAIR_QUICK)
+PAIR_THOROUGH5 = ("none", "a>b", "both", "both2x")
 
 
 class StubCon (object):
@@ -100,6 +101,10 @@ def build_graph (n, pairs, dpids):
           pa, pb = port(a), port(b); links += [(a, pa, b, pb), (b, pb, a, pa)]
         elif kind == "both+a>b":
           pa, pb = port(a), port(b); links.append((a, pa, b, pb))
+      elif kind == "both2x":
+        # two parallel cables, crossed: a.p1 - b.p2 and a.p2 - b.p1
+        pa1, pb1, pa2, pb2 = port(a), port(b), port(a), port(b)
+        links += [(a, pa1, b, pb2), (b, pb2, a, pa1), (a, pa2, b, pb1), (b, pb1, a, pa2)]
       elif kind == "a>b,b>a-diffports":
         pa, pb = port(a), port(b); links.append((a, pa, b, pb))
         pa, pb = port(a), port(b); links.append((b, pb, a, pa))
@@ -194,7 +199,8 @@ def graph_items (quick):
     npairs = n * (n - 1) // 2
     orders = [tuple(range(1, n + 1)), tuple(range(n, 0, -1))]
     if n == 3: orders.append((0x10, 2, 0xff00000000000001))
-    for pairs in itertools.product(PAIR_QUICK, repeat=npairs):
+    alpha = PAIR_QUICK4 if (quick and n == 4) else PAIR_QUICK
+    for pairs in itertools.product(alpha, repeat=npairs):
       for dp in orders: items.append((n, pairs, dp))
   if not quick:
     for pairs in itertools.product(PAIR_THOROUGH5, repeat=10):
